@@ -1169,7 +1169,9 @@ class HTMLDocument:
     def _gen_html_tag_tree(
         self, lib_prefix: Optional[str], include_version: bool
     ) -> Tag:
-        content: TagList = self._content
+        # Expand tagifiable objects first: content that only becomes a lone <html> or
+        # <body> tag once it is tagified is treated like one that was given directly.
+        content: TagList = self._content.tagify()
         html: Tag
         body: Tag
 
